@@ -353,11 +353,11 @@ func abbreviate(sc *Scenario) *Scenario {
 		if len(c.Vars[i].Words) > 4 {
 			n := len(c.Vars[i].Words)
 			c.Vars[i].Words = append(c.Vars[i].Words[:2:2], c.Vars[i].Words[n-2:]...)
-			c.Vars[i].Dirty = -n // marks "abbreviated, n words"
+			c.Note += fmt.Sprintf("v%d has %d words (2 lowest and 2 highest shown); ", i, n)
 		}
 	}
 	if len(c.Preempt) > 12 {
-		c.Note = fmt.Sprintf("%d preemption points, first 12 shown", len(c.Preempt))
+		c.Note += fmt.Sprintf("%d preemption points, first 12 shown; ", len(c.Preempt))
 		c.Preempt = c.Preempt[:12]
 	}
 	for t := range c.Tasks {
